@@ -218,13 +218,18 @@ Proof.
   unfold read_command_cc, cc_warn. intros H I. repeat brk H;
     injection H as <- <- <- <-; try exact I; try (apply lx_add_log_ok, I); eapply read_args_tokens_ok; eassumption.
 Qed.
-Lemma read_cc_ok ls is_c s ln ot s' ln' ls' :
-  read_cc ls is_c s ln = Ok (ot, s', ln', ls') -> LI ls -> LI ls'.
+Lemma guard_out_ok r x : guard_out r = Ok x -> r = Ok x.
+Proof. unfold guard_out. destruct r as [a| | |]; cbn [bind]; try discriminate. destruct (otok_big _); [discriminate|]. exact (fun H => H). Qed.
+Lemma read_cc_raw_ok ls is_c s ln ot s' ln' ls' :
+  read_cc_raw ls is_c s ln = Ok (ot, s', ln', ls') -> LI ls -> LI ls'.
 Proof.
-  unfold read_cc. intros H I. repeat brk H;
+  unfold read_cc_raw. intros H I. repeat brk H;
     try (injection H as ->; eapply read_command_cc_ok; eassumption);
     injection H as <- <- <- <-; try exact I; apply read_error_cmd_ok, I.
 Qed.
+Lemma read_cc_ok ls is_c s ln ot s' ln' ls' :
+  read_cc ls is_c s ln = Ok (ot, s', ln', ls') -> LI ls -> LI ls'.
+Proof. unfold read_cc. intros H. apply guard_out_ok in H. exact (read_cc_raw_ok _ _ _ _ _ _ _ _ H). Qed.
 Lemma read_rpn_command_ok ls nrpn msb lsb s ln ot s' ln' ls' :
   read_rpn_command ls nrpn msb lsb s ln = Ok (ot, s', ln', ls') -> LI ls -> LI ls'.
 Proof.
@@ -242,15 +247,19 @@ Proof.
   unfold read_def_str. intros H I. repeat brk H;
     injection H as <- <- <- <-; try exact I; apply lx_add_log_ok, I.
 Qed.
-Lemma read_ext_command_ok ls ttype argt tag1 tag2 s ln ot s' ln' ls' :
-  read_ext_command ls ttype argt tag1 tag2 s ln = Ok (ot, s', ln', ls') -> LI ls -> LI ls'.
+Lemma read_ext_command_raw_ok ls ttype argt tag1 tag2 s ln ot s' ln' ls' :
+  read_ext_command_raw ls ttype argt tag1 tag2 s ln = Ok (ot, s', ln', ls') -> LI ls -> LI ls'.
 Proof.
-  unfold read_ext_command. intros H I. repeat brk H;
+  unfold read_ext_command_raw. intros H I. repeat brk H;
     try (injection H as ->; first [eapply read_cc_ok; eassumption | eapply read_command_cc_ok; eassumption
                                   | eapply read_rpn_command_ok; eassumption | eapply read_play_ok; eassumption
                                   | eapply read_def_str_ok; eassumption]);
     injection H as <- <- <- <-; try exact I; eapply read_args_tokens_ok; eassumption.
 Qed.
+Lemma read_ext_command_ok ls ttype argt tag1 tag2 s ln ot s' ln' ls' :
+  read_ext_command ls ttype argt tag1 tag2 s ln = Ok (ot, s', ln', ls') -> LI ls -> LI ls'.
+Proof. unfold read_ext_command. intros H. apply guard_out_ok in H. exact (read_ext_command_raw_ok _ _ _ _ _ _ _ _ _ _ _ H). Qed.
+
 
 Section LoopInv.
 Variable sublex : lexstate -> list Z -> Z -> res lex_out.
